@@ -1,15 +1,26 @@
 #!/usr/bin/env python3
-"""Run the registered checks against every seeded change (scratch copy of /repo + patch). Prints a matrix."""
+"""Run every property's rules against every seeded / selftest mutant (one fact extraction per mutant).
+Writes seeded/matrix.json (seeded id -> property -> rules that fire) and prints the matrix."""
 import json, os, shutil, subprocess, sys, tempfile
 V = os.path.dirname(os.path.dirname(os.path.abspath(__file__)))
-props = [c["property_id"] for c in json.load(open(os.path.join(V, "MANIFEST.json")))["checks"]] or sys.argv[2:]
-only = sys.argv[1:] 
-rows = []
+sys.path.insert(0, V)
+from analysis import registry, framework, facts as factsmod
+from analysis.mir import Facts
+
+props = [json.loads(l)["id"] for l in open(os.path.join(V, "properties.jsonl"))]
+only = sys.argv[1:]
+items = []
 for d in sorted(os.listdir(os.path.join(V, "seeded"))):
-    if only and not any(d.startswith(o) for o in only):
-        continue
-    patch = os.path.join(V, "seeded", d, "patch.diff")
-    if not os.path.exists(patch):
+    p = os.path.join(V, "seeded", d, "patch.diff")
+    if os.path.exists(p):
+        items.append((d, p))
+for m in json.load(open(os.path.join(V, "selftest", "index.json")))["mutants"]:
+    items.append(("selftest:" + m["id"], os.path.join(V, m["patch"])))
+mx_path = os.path.join(V, "seeded", "matrix.json")
+mx = json.load(open(mx_path)) if os.path.exists(mx_path) and only else {}
+os.environ.setdefault("VERIF_TIER", "quick")
+for sid, patch in items:
+    if only and not any(sid.startswith(o) or sid == "selftest:" + o for o in only):
         continue
     tmp = tempfile.mkdtemp(prefix="seed.")
     try:
@@ -20,18 +31,35 @@ for d in sorted(os.listdir(os.path.join(V, "seeded"))):
             (shutil.copytree if os.path.isdir(s) else shutil.copy)(s, os.path.join(repo, x))
         r = subprocess.run(["patch", "-p1", "-s", "-i", patch], cwd=repo, capture_output=True, text=True)
         if r.returncode != 0:
-            rows.append((d, "PATCH-FAILED " + r.stdout[:200]))
+            print(sid, "-> PATCH-FAILED", r.stdout[:200].replace("\n", " "), flush=True)
             continue
-        hits = []
-        env = dict(os.environ, VERIF_REPO=repo, VERIF_EVIDENCE_DIR=os.path.join(tmp, "ev"))
+        try:
+            raw, info = factsmod.extract(repo, "log")
+        except factsmod.ExtractError as e:
+            print(sid, "-> DOES-NOT-COMPILE", flush=True)
+            continue
+        F = Facts(raw)
+        det = {}
+        cache = {}
         for p in props:
-            r = subprocess.run([os.path.join(V, "check"), p], cwd=V, env=env, capture_output=True, text=True)
-            if r.returncode == 1:
-                rules = sorted({l.split("rule=")[1].split()[0] for l in r.stdout.splitlines() if l.strip().startswith("rule=")})
-                hits.append("%s[%s]" % (p, ",".join(rules)))
-            elif r.returncode != 0:
-                hits.append("%s[exit%d]" % (p, r.returncode))
-        rows.append((d, " ".join(hits) if hits else "MISSED"))
+            fired = set()
+            for rid in registry.rules_for(p):
+                if rid not in cache:
+                    inst, _ = framework.run_rules(F, [rid], "log")
+                    cache[rid] = inst
+                new, _old = framework.classify(cache[rid], p)
+                und = [i for i in cache[rid] if i["status"] == "undecided"]
+                if new:
+                    fired.add(rid)
+                elif und:
+                    fired.add(rid + "?")
+            if fired:
+                det[p] = sorted(fired)
+        if not sid.startswith("selftest:"):
+            mx[sid] = {p: [r for r in rs if not r.endswith("?")] for p, rs in det.items() if any(not r.endswith("?") for r in rs)}
+        own = sid.split("-")[0] if not sid.startswith("selftest:") else None
+        flag = "" if own is None or own in det else "   (own property %s: MISSED)" % own
+        print(sid, "->", " ".join("%s[%s]" % (p, ",".join(rs)) for p, rs in sorted(det.items())) or "MISSED", flag, flush=True)
     finally:
         shutil.rmtree(tmp, ignore_errors=True)
-    print(rows[-1][0], "->", rows[-1][1], flush=True)
+json.dump(mx, open(mx_path, "w"), indent=1, sort_keys=True)
